@@ -246,7 +246,46 @@ func (p *parser) parseRegexpLabelParser() (*RegexpLabelParser, error) {
 	}, nil
 }
 
-func (p *parser) parseLabelPredicate() (pred LabelPredicate, _ error) {
+// parseLabelPredicate parses a label predicate: "or" binds weaker than "and".
+func (p *parser) parseLabelPredicate() (LabelPredicate, error) {
+	left, err := p.parseLabelPredicateAnd()
+	if err != nil {
+		return nil, err
+	}
+	if t := p.peek(); t.Type != lexer.Or {
+		return left, nil
+	}
+	p.next()
+
+	right, err := p.parseLabelPredicate()
+	if err != nil {
+		return nil, err
+	}
+	return &LabelPredicateBinOp{Left: left, Op: OpOr, Right: right}, nil
+}
+
+func (p *parser) parseLabelPredicateAnd() (LabelPredicate, error) {
+	left, err := p.parseLabelPredicateUnary()
+	if err != nil {
+		return nil, err
+	}
+	switch t := p.peek(); t.Type {
+	case lexer.Ident:
+		// Implicit "and".
+	case lexer.Comma, lexer.And:
+		p.next()
+	default:
+		return left, nil
+	}
+
+	right, err := p.parseLabelPredicateAnd()
+	if err != nil {
+		return nil, err
+	}
+	return &LabelPredicateBinOp{Left: left, Op: OpAnd, Right: right}, nil
+}
+
+func (p *parser) parseLabelPredicateUnary() (pred LabelPredicate, _ error) {
 	switch t := p.next(); t.Type {
 	case lexer.OpenParen:
 		lp, err := p.parseLabelPredicate()
@@ -374,27 +413,7 @@ func (p *parser) parseLabelPredicate() (pred LabelPredicate, _ error) {
 		return nil, p.unexpectedToken(t)
 	}
 
-	var binOp BinOp
-	switch nextTok := p.next(); nextTok.Type {
-	case lexer.Ident:
-		p.unread()
-		binOp = OpAnd
-	case lexer.Comma, lexer.And:
-		binOp = OpAnd
-	case lexer.Or:
-		binOp = OpOr
-	case lexer.EOF:
-		return pred, nil
-	default:
-		p.unread()
-		return pred, nil
-	}
-
-	right, err := p.parseLabelPredicate()
-	if err != nil {
-		return nil, err
-	}
-	return &LabelPredicateBinOp{Left: pred, Op: binOp, Right: right}, nil
+	return pred, nil
 }
 
 func (p *parser) parseLabelFormatExpr() (lf *LabelFormatExpr, err error) {
